@@ -103,13 +103,25 @@ class BaseTimeSeriesForest:
             for _ in range(self.n_estimators)
         ]
 
+        # a RandomState instance must not be shared by the parallel tree fits (they
+        # would consume it in scheduling order): draw one integer seed per tree here,
+        # in submission order; integer seeds and None are passed on as before
+        if self.random_state is None or isinstance(
+            self.random_state, (int, np.integer)
+        ):
+            seeds = [self.random_state] * self.n_estimators
+        else:
+            seeds = [
+                rng.randint(np.iinfo(np.int32).max) for _ in range(self.n_estimators)
+            ]
+
         self.estimators_ = Parallel(n_jobs=self.n_jobs)(
             delayed(_fit_estimator)(
                 X,
                 y,
                 self.base_estimator,
                 self.intervals_[i],
-                self.random_state,
+                seeds[i],
             )
             for i in range(self.n_estimators)
         )
